@@ -1,0 +1,24 @@
+//go:build !verif
+
+// Package verifhook holds the instrumentation points of the verification
+// machinery in /verif. Without the build tag `verif` every function is an
+// empty, inlinable no-op.
+package verifhook
+
+// Enter marks the start of a worker region (a handler or goroutine turn).
+func Enter(region string) {}
+
+// Exit marks the end of a worker region.
+func Exit(region string) {}
+
+// Sent records that a wake-up token or work item was handed to a goroutine.
+func Sent(token string) {}
+
+// Taken records that the turn triggered by a token has completed.
+func Taken(token string) {}
+
+// At is a named point: a gate, a crash point and a hit counter.
+func At(point string) {}
+
+// CountKey increments the counter name[key].
+func CountKey(name string, key uint64) {}
